@@ -718,12 +718,117 @@ static void one_case(int ti, vf_rng *r) {
     VF_UNGUARD();
     vf_add(T[ti].name, 1);
 }
+/* ---- coverage-guided phase ("fuzz"): libFuzzer mutates a byte tape; byte 0 picks the table entry, the rest feeds every
+ * draw of the hostile-argument generators (vf_tape_set), so the mutation engine steers the same cases as the random
+ * phases towards library branches they have not reached.  Oracles, guards and watchdog are the same. */
+static uint64_t tape_hash(const uint8_t *d, size_t n) {
+    uint64_t h = 1469598103934665603ULL;
+    for (size_t i = 0; i < n; i++) h = (h ^ d[i]) * 1099511628211ULL;
+    return vf_mix(h + n);
+}
+static void tape_case(int ti, const uint8_t *d, size_t n) { /* d: the tape proper (n bytes) */
+    static char spec[4000];
+    int o;
+    if (n > 1800) n = 1800;
+    o = snprintf(spec, sizeof spec, "tape %d ", ti);
+    for (size_t i = 0; i < n; i++) o += snprintf(spec + o, sizeof spec - (size_t)o, "%02x", d[i]);
+    if (n == 0) snprintf(spec + o, sizeof spec - (size_t)o, "-");
+    vf_rng r;
+    vf_rng_seed(&r, tape_hash(d, n) + (uint64_t)ti);
+    R = &r;
+    vf_case("%s %s", spec, T[ti].name);
+    vf_tape_set(d, n);
+    if (VF_GUARD()) {
+        T[ti].f();
+    } else {
+        vf_assert_report(CUR, 0);
+    }
+    VF_UNGUARD();
+    vf_tape_set(NULL, 0);
+    vf_add(T[ti].name, 1);
+}
+#ifdef VF_FUZZ
+#include <dirent.h>
+#include <sys/stat.h>
+extern int LLVMFuzzerRunDriver(int *argc, char ***argv, int (*cb)(const uint8_t *, size_t));
+static int64_t fuzz_execs;
+static char fuzz_corpus[4096];
+static int fuzz_cb(const uint8_t *d, size_t n) {
+    if (n < 1) return 0;
+    tape_case(d[0] % NT, d + 1, n - 1);
+    fuzz_execs++;
+    if ((fuzz_execs & 15) == 0) vf_distinct(tape_hash(d, n));
+    return 0;
+}
+static void fuzz_done(void) {
+    int64_t units = 0, bytes = 0;
+    DIR *dd = opendir(fuzz_corpus);
+    if (dd) {
+        struct dirent *e;
+        while ((e = readdir(dd))) {
+            char fp[4400];
+            struct stat st;
+            snprintf(fp, sizeof fp, "%s/%s", fuzz_corpus, e->d_name);
+            if (e->d_name[0] != '.' && stat(fp, &st) == 0 && S_ISREG(st.st_mode)) units++, bytes += st.st_size;
+        }
+        closedir(dd);
+    }
+    vf_add("fuzz.execs", fuzz_execs);
+    vf_add("fuzz.corpus_units_kept", units);
+    vf_add("fuzz.corpus_bytes", bytes);
+    vf_add("cases", fuzz_execs);
+    vf_add("api_calls", n_calls);
+    vf_add("documented_code_judgements", n_judged);
+    vf_add("skipped.size_over_cap", n_skipped_size);
+    vf_sample("coverage-guided: %" PRId64 " executions, %" PRId64 " API calls, corpus of %" PRId64 " units that each reached new library coverage", fuzz_execs, n_calls, units);
+    vf_finish();
+}
+static void run_fuzz(void) {
+    vf_rng r;
+    vf_rng_stream(&r, 1212);
+    snprintf(fuzz_corpus, sizeof fuzz_corpus, "corpus-fuzz-%d", VF.shard);
+    mkdir(fuzz_corpus, 0755);
+    /* starting corpus: a few random tapes per table entry from this shard's stream */
+    for (int ti = 0; ti < NT; ti++)
+        for (int k = 0; k < 4; k++) {
+            char fp[4400];
+            uint8_t buf[400];
+            int len = 40 + (int)vf_below(&r, 360);
+            buf[0] = (uint8_t)ti;
+            for (int i = 1; i < len; i++) buf[i] = (uint8_t)vf_u64(&r);
+            snprintf(fp, sizeof fp, "%s/seed-%02d-%d", fuzz_corpus, ti, k);
+            FILE *f = fopen(fp, "wb");
+            if (!f) vf_fatal("cannot write %s", fp);
+            fwrite(buf, 1, (size_t)len, f);
+            fclose(f);
+        }
+    char a_runs[64], a_seed[64];
+    int64_t runs = getenv("VF_FUZZ_RUNS") ? atoll(getenv("VF_FUZZ_RUNS")) : VF_T(12000, 600000);
+    snprintf(a_runs, sizeof a_runs, "-runs=%" PRId64, runs);
+    snprintf(a_seed, sizeof a_seed, "-seed=%u", (unsigned)(vf_u64(&r) % 4000000000u) + 1u);
+    /* no wall-clock unit timeout (the kit's CPU-time watchdog judges totality), no allocation/RSS limits (a refused huge
+     * allocation is the library's business: E_MEMORY_ALLOC), no leak pass (C17's subject) */
+    char *argv_[] = {"mon", a_runs, a_seed, "-max_len=1600", "-len_control=0", "-timeout=0", "-rss_limit_mb=0", "-malloc_limit_mb=0",
+                     "-detect_leaks=0", "-print_final_stats=1", "-reload=0", "-use_value_profile=1", fuzz_corpus, NULL};
+    int argc_ = (int)(sizeof argv_ / sizeof argv_[0]) - 1;
+    char **av = argv_;
+    atexit(fuzz_done);
+    LLVMFuzzerRunDriver(&argc_, &av, fuzz_cb); /* ends the process through exit(): fuzz_done writes the closing events */
+    fuzz_done();
+}
+#endif
 static void run(void) {
     vf_rng r;
     vf_rng_stream(&r, 12);
     /* totality: a call that burns 120 (thorough and memcheck: 240) CPU-seconds has not returned — CPU time, not wall-clock */
     vf_watchdog_fn(&CUR);
     vf_watchdog(10, VF.thorough || !strcmp(VF.phase, "memcheck") ? 24 : 12);
+#ifdef VF_FUZZ
+    if (!strcmp(VF.phase, "fuzz")) {
+        run_fuzz();
+        return;
+    }
+#endif
     if (VF.shard == 0) {
         R = &r;
         vf_case("witness-f4");
@@ -757,6 +862,16 @@ static void replay(const char *spec) {
     vf_watchdog(10, VF.thorough || !strcmp(VF.phase, "memcheck") ? 24 : 12);
     if (sscanf(spec, "call %d %" SCNx64 " %" SCNx64 " %" SCNx64 " %" SCNx64, &ti, &r.s[0], &r.s[1], &r.s[2], &r.s[3]) == 5 && ti >= 0 && ti < NT) {
         one_case(ti, &r);
+        vf_add("cases", 1);
+        vf_add("api_calls", n_calls);
+    } else if (!strncmp(spec, "tape ", 5)) {
+        static uint8_t d[2000];
+        size_t n = 0;
+        int ti2 = 0, off = 0;
+        unsigned x;
+        if (sscanf(spec, "tape %d %n", &ti2, &off) < 1 || ti2 < 0 || ti2 >= NT) vf_fatal("bad tape spec");
+        for (const char *q = spec + off; n < sizeof d && q[0] != '-' && q[0] != ' ' && q[0] && sscanf(q, "%2x", &x) == 1; q += 2) d[n++] = (uint8_t)x;
+        tape_case(ti2, d, n);
         vf_add("cases", 1);
         vf_add("api_calls", n_calls);
     } else if (!strncmp(spec, "witness-f4", 10)) {
